@@ -140,11 +140,11 @@ AXIS_TABLE = [
 ]
 
 DEFASSIGN_EXCEPTIONS = {
-    (T + "qtt_to_tens", "so_far"): "first-iteration initialisation idiom: `core` is None on loop entry and is reset to None "
+    (T + "qtt_to_tens", "sig:=item | augMult"): "first-iteration initialisation idiom: `core` is None on loop entry and is reset to None "
                                    "whenever a core is emitted, so the assigning branch always runs before the reading one",
-    ("_decomposition.mat_to_tt", "ttv"): "only unassigned when is_sparse is true; every call site passes no is_sparse "
+    ("_decomposition.mat_to_tt", "sig:unpack[0/2]=call:to_tt"): "only unassigned when is_sparse is true; every call site passes no is_sparse "
                                          "argument (re-verified on each run)",
-    ("_decomposition.mat_to_tt", "R"): "same as ttv",
+    ("_decomposition.mat_to_tt", "sig:unpack[1/2]=call:to_tt"): "same as ttv",
 }
 
 
@@ -247,8 +247,17 @@ def rule_raise_table(model: Model) -> list[Ob]:
         f = model.func(fn)
         raises = raises_with_inner_guard(model, f)
         used = set()
-        for _, exc, need, cls in sorted(ents, key=lambda e: -len(e[2])):
-            k = f"{fn}:RAISE-TABLE:{exc or 'any'}:{'+'.join(sorted(need))}"
+        import builtins as _b
+        params = set(f.params())
+
+        def stable(need):
+            """tokens that do not depend on how a local is called: parameters, attributes of parameters, builtins.  (Local names of the
+            table are hints confirmed on the pinned tree; the guard tokens are closed over the locals' definitions, so the stable part
+            of an entry is still found in the guard after any renaming.)"""
+            return {t for t in need if t.split(".")[0].split("[")[0] in params or hasattr(_b, t) or t in ("Ellipsis",)}
+        for _, exc, need0, cls in sorted(ents, key=lambda e: -len(e[2])):
+            need = stable(need0)
+            k = f"{fn}:RAISE-TABLE:{exc or 'any'}:{'+'.join(sorted(need0))}"
             hit = [i for i, r in enumerate(raises) if i not in used and (exc is None or r[1] == exc) and need <= r[2]]
             if hit:
                 # prefer the raise with the fewest extra tokens
